@@ -654,7 +654,7 @@ REGISTRY = {
                 mc=[MC_SESSION], gen=GEN_SESSION, assumptions=STREAM_ASSUME,
                 rule="scenario = (server id, file name, offset) incl. ids >= 2^31, 255-byte and UTF-8 names, offsets to 2^32-1, 1-3 attempts with "
                      "explicit re-positioning, the empty file name; plus histories with transport faults where later attempts must request the stored "
-                     "position; plus the sessions TLC generates from MC_Session (a quarter in quick, all in thorough): the handshake of every attempt"),
+                     "position; plus the sessions TLC generates from MC_Session (a quarter in quick, a third in thorough): the handshake of every attempt"),
     "C08": dict(mode="c08", mc=[MC_BUFFERS], trace_module="Trace_Stream", trace_cfg="Trace_Stream.cfg", props=["C08"],
                 nontrivial=has_tx, assumptions=STREAM_ASSUME, trace_heap="6g",
                 rule="scenario = history with event sizes around the driver's 4096-byte buffer x pacing (later packets before/after the handler "
